@@ -166,7 +166,7 @@ def r075(ctx):
         want = ('io_loop::Inner::push_method(inner, 0, amq_protocol::protocol::connection::AMQPMethod::Close(amq_protocol::protocol::connection::Close{'
                 'class_id: 0, method_id: 0, reply_code: amq_protocol::protocol::AMQPHardError::get_id(reply_code), reply_text: reply_text}))')
         r.eq('close-frame', S.show(push[0].term), want, ctx.site(fnp, push[0].node))
-        r.check('order', S.dominates(push[0], seal[0]) and S.dominates(seal[0], asg[0]) and not push[0].guards and not seal[0].guards and not asg[0].guards, site,
+        r.check('order', S.dominates(push[0], seal[0]) and S.dominates(seal[0], asg[0]) and not [g for e in (push[0], seal[0], asg[0]) for g in e.guards if g[2] != 'inline'], site,
                 built=[e.idx for e in (push[0], seal[0], asg[0])], expected='push Close; seal; state = ClientException (unconditionally, in this order)')
         r.eq('state', S.show(asg[0].term), 'io_loop::connection_state::ConnectionState::ClientException', site)
         rows = P.table(ctx, 'io_loop::IoLoop::run_connection', ['self', 'stream', 'ch0_slot'])
